@@ -9,7 +9,7 @@
 import ast
 
 from .. import phys
-from ..astutil import U, calls, callee_name, const_str, own_walk
+from ..astutil import U, assignments, calls, callee_name, const_str, own_walk
 from ..callgraph import CallGraph
 from ..effects import FunctionEffects, mutation_summaries, net_key
 from ..kernelir import PyVal, Unsupported
@@ -416,11 +416,37 @@ def nondeterminism_sites(ix, funcs):
                         out.append((f, n, "call of %s.%s" % (imp[1], n.func.id)))
             if isinstance(n, (ast.For, ast.comprehension)):
                 it = n.iter
-                if isinstance(it, ast.Call) and U(it.func) == "set":
-                    out.append((f, it, "iteration over a set"))
-                if isinstance(it, ast.Set):
-                    out.append((f, it, "iteration over a set display"))
+                # a local name bound once to a set is that set
+                if isinstance(it, ast.Name):
+                    asg = assignments(f.node, it.id)
+                    if len(asg) == 1 and asg[0][2] is None:
+                        it = asg[0][1]
+                is_set = (isinstance(it, ast.Call) and U(it.func) in ("set", "frozenset")) or isinstance(it, (ast.Set, ast.SetComp))
+                if is_set and not (isinstance(n, ast.For) and _order_insensitive(n)):
+                    out.append((f, n.iter, "iteration over a set" + (" display" if isinstance(it, ast.Set) else "")))
     return out
+
+
+COMMUTING = {"pop", "discard", "add", "remove"}
+
+
+def _order_insensitive(loop):
+    """the order of the passes cannot be observed: every statement of the body removes / adds the loop's own element from / to a
+    container (d.pop(k, None), s.discard(k), s.add(k), del d[k]) and nothing else"""
+    names = {x.id for x in ast.walk(loop.target) if isinstance(x, ast.Name)}
+    if loop.orelse:
+        return False
+    for st in loop.body:
+        if isinstance(st, ast.Expr) and isinstance(st.value, ast.Call) and isinstance(st.value.func, ast.Attribute) \
+                and st.value.func.attr in COMMUTING and isinstance(st.value.func.value, ast.Name) and st.value.func.value.id not in names \
+                and st.value.args and isinstance(st.value.args[0], ast.Name) and st.value.args[0].id in names \
+                and all(isinstance(a, ast.Constant) for a in st.value.args[1:]) and not st.value.keywords:
+            continue
+        if isinstance(st, ast.Delete) and all(isinstance(t, ast.Subscript) and isinstance(t.value, ast.Name) and t.value.id not in names
+                                              and isinstance(t.slice, ast.Name) and t.slice.id in names for t in st.targets):
+            continue
+        return False
+    return True
 
 
 def r12_4(run):
